@@ -85,10 +85,7 @@ def compare_op(
         for k in sorted(ef):
             if k in rf and rf[k] != ef[k]:
                 out.append(mm("gfunc:" + k, rf[k], ef[k]))
-        rd = {n: d for n, d in ro.get("dets", [])}
-        for n, d in eo.get("dets", []):
-            if n in rd and rd[n] != d:
-                out.append(mm("gdet:" + n, rd[n], d))
+        # per-detector outputs are compared by the caller, each with its own single-detector reference
     return out
 
 
